@@ -66,6 +66,39 @@ let str_of_outcome = function
   | Ran s -> "RAN " ^ str_of_types s | TypeErr -> "TYPEERR" | ValueErr -> "VALUEERR" | BadArgs -> "BADARGS"
 let str_of_opt = function Some t -> tok_of_type t | None -> "NONE"
 
+
+(* ---- argument fetch (M_FusedArgs): values are "<argtok>.<id>" except buffers; params
+   "name:kind:ft:def,..." (kind o = positional-only, k = positional-or-keyword, w = keyword-only;
+   ft = - or fused type index; def = - or value), star/kw = 0/1, args "v,v" or -, kwargs "name=v,.." or - *)
+let val_of_tok s =
+  match String.rindex_opt s '.' with
+  | Some i ->
+      (arg_of_tok (String.sub s 0 i), int_of_string (sub s (i + 1)))
+  | _ -> failwith "value"
+let tok_of_val ((_, i) : atag * int) = string_of_int i
+let kind_of_tok = function "o" -> KPosOnly | "k" -> KPosKw | "w" -> KKwOnly | _ -> failwith "kind"
+let tok_of_kind = function KPosOnly -> "o" | KPosKw -> "k" | KKwOnly -> "w"
+let params_of s =
+  List.map (fun f -> match String.split_on_char ':' f with
+      | [n; k; ft; d] ->
+          { p_name = nat_of_int (int_of_string n); p_kind = kind_of_tok k;
+            p_fused = (if ft = "-" then None else Some (nat_of_int (int_of_string ft)));
+            p_default = (if d = "-" then None else Some (val_of_tok d)) }
+      | _ -> failwith "param") (split_on ',' s)
+let fsig_of ps star kw = { s_params = params_of ps; s_star = (star = "1"); s_kw = (kw = "1") }
+let vals_of s = List.map val_of_tok (split_on ',' s)
+let kwargs_of s =
+  List.map (fun f -> match String.index_opt f '=' with
+      | Some i -> (nat_of_int (int_of_string (String.sub f 0 i)), val_of_tok (sub f (i + 1)))
+      | None -> failwith "kwarg") (split_on ',' s)
+let mss_of s = List.map types_of (String.split_on_char ';' s)
+let str_of_plans pls =
+  if pls = [] then "-" else
+  String.concat ";" (List.map (fun pl ->
+      Printf.sprintf "%d:%d:%d:%s:%s" (int_of_nat pl.pl_ft) (int_of_nat pl.pl_idx) (int_of_nat pl.pl_name)
+        (tok_of_kind pl.pl_kind) (match pl.pl_def with Some k -> string_of_int (int_of_nat k) | None -> "-")) pls)
+let str_of_vals l = if l = [] then "-" else String.concat "," (List.map tok_of_val l)
+
 let handle = function
   | ["sort"; bits; ms] -> str_of_types (pysort (ty_lt (idlt_of bits)) (types_of ms))
   | ["split"; bits; ms] ->
@@ -82,6 +115,20 @@ let handle = function
       let d = ftypes_of fts in
       (match getitem (fun (a : string) b -> a = b) tok_of_type (all_sigs (List.map (fun f -> f.members) d)) (split_on ',' idx) with
        | IFound s -> "FOUND " ^ str_of_types s | IKeyError -> "KEYERROR")
+  | ["plans"; ca; ps] -> str_of_plans (plans (ca = "1") (fsig_of ps "0" "0"))
+  | ["call2"; ca; fxk; fx; bits; mss; ps; star; kw; args; kwargs] ->
+      let sg = fsig_of ps star kw and a = vals_of args and k = kwargs_of kwargs and m = mss_of mss in
+      let pls = plans (ca = "1") sg in
+      str_of_outcome (call2_cy fst (ca = "1") (fxk = "1") (bool_of_string fx) (idlt_of bits) m sg a k) ^ " ; "
+      ^ str_of_outcome (doc_call2 fst m sg a k) ^ " ; "
+      ^ (match fetch_all (fxk = "1") pls a k (defaults_tuple sg.s_params) with
+         | Fetched vs -> "FETCHED " ^ str_of_vals vs | FetchMissing -> "MISSING" | FetchBadIndex -> "BADINDEX") ^ " ; "
+      ^ (match bind_py sg a k with Some vs -> "BOUND " ^ str_of_vals vs | None -> "TYPEERR") ^ " ; "
+      ^ (if wf_sig sg then "wf" else "NOTWF") ^ " "
+      ^ (if List.for_all (fun pl -> hazard_free pl a k) (plans true sg) then "safe" else "hazard")
+  | ["index2"; mss; ps; star; kw; sg; args; kwargs] ->
+      let s = fsig_of ps star kw and a = vals_of args and k = kwargs_of kwargs in
+      ignore mss; str_of_outcome (call_index fst s (types_of sg) a k)
   | _ -> "!ERR badcmd"
 
 let () = main_loop handle
